@@ -1,4 +1,365 @@
-import LinOp.C12.Model
+import LinOp.C12.Proofs
+import LinOp.C12.Algebra
+import LinOp.Generated.C12Table
+/-!
+C12 — cached results are transparent: answers do not depend on query history.  Property theorems only.
+
+`P : Profile`, `σ : Settings`, the size `n` and the matrix id `m` are arbitrary everywhere; histories are
+arbitrary finite lists of (settings, query) pairs, so settings may change between any two queries.
+-/
 namespace LinOp.C12
-theorem stub : True := trivial
+
+/-! ### the memoize layer -/
+
+/-- **Keys are injective in what they memoise.**  A non-`ignore_args` key determines name, positional and
+keyword arguments (so `root_decomposition(method=…)` variants, positional vs keyword calls, and different
+cache names never share an entry); a lower and an upper `_cholesky` call share a key only for classes whose
+`_cholesky` ignores its arguments. -/
+theorem key_injective (P : Profile) :
+    (∀ c₁ c₂, rootKey c₁ = rootKey c₂ → c₁ = c₂) ∧
+    (∀ c₁ c₂, rootInvKey c₁ = rootInvKey c₂ → c₁ = c₂) ∧
+    (∀ c₁ c₂, diagzKey c₁ = diagzKey c₂ → c₁ = c₂) ∧
+    (∀ c₁ c₂, rootKey c₁ ≠ rootInvKey c₂ ∧ rootKey c₁ ≠ diagzKey c₂ ∧ rootInvKey c₁ ≠ diagzKey c₂) ∧
+    (∀ c u, cholKey P u ≠ rootKey c ∧ cholKey P u ≠ rootInvKey c ∧ cholKey P u ≠ diagzKey c ∧ cholKey P u ≠ svdKey
+        ∧ cholKey P u ≠ denseKey) ∧
+    (P.cholBare = false → ∀ u₁ u₂, cholKey P u₁ = cholKey P u₂ → u₁ = u₂) := by
+  refine ⟨?_, ?_, ?_, ?_, ?_, ?_⟩
+  · intro c₁ c₂ h; cases c₁; cases c₂; simp [rootKey] at h; simp [h]
+  · intro c₁ c₂ h; cases c₁; cases c₂; simp [rootInvKey] at h; simp [h]
+  · intro c₁ c₂ h; cases c₁; cases c₂; simp [diagzKey] at h; simp [h]
+  · intro c₁ c₂; simp [rootKey, rootInvKey, diagzKey]
+  · intro c u; unfold cholKey; split <;> simp [rootKey, rootInvKey, diagzKey, svdKey, denseKey]
+  · intro hb u₁ u₂ h; simpa [cholKey, hb] using h
+
+/-- The finite-map laws the cache obeys (lookup after insert / pop). -/
+theorem cache_map_laws (c : Cache) (k k' : Key) (v : Val) :
+    (c.put k v).get k = some v ∧ (k' ≠ k → (c.put k v).get k' = c.get k') ∧
+    (c.pop k).get k = none ∧ (k' ≠ k → (c.pop k).get k' = c.get k') :=
+  ⟨Cache.get_put_same c k v, Cache.get_put_other c k k' v, Cache.get_pop_same c k, Cache.get_pop_other c k k'⟩
+
+/-! ### cache invariant and transparency -/
+
+/-- **cache_inv + answer validity, one step**: from any state whose cache satisfies the invariant, under any
+settings and for any query, the invariant holds afterwards and the answer is an acceptable answer to the query
+(right kind, right orientation, a factorization of THIS object's matrix, numbers computed from correct factors,
+`eigh` in its full form). -/
+theorem cache_inv (P : Profile) (σ : Settings) (n m : Nat) (q : Query) (s : St) (hs : Inv m s.cache) :
+    Inv m (runQuery P σ n m q s).1.cache ∧ answerOk m q (runQuery P σ n m q s).2 := by
+  cases q with
+  | toDense =>
+    have h := toDense_ok P m s hs
+    refine ⟨h.1, ?_⟩
+    show answerOk m .toDense (toDense P m s).2
+    rw [valid_denseKey m h.2]; simp [answerOk]
+  | cholesky u =>
+    have h := cholesky_ok P m u s hs
+    refine ⟨h.1, ?_⟩
+    show answerOk m (.cholesky u) (cholesky P m u s).2
+    rw [h.2]; simp [answerOk]
+  | root c =>
+    have h := good_root P σ n m c s hs
+    refine ⟨h.1, ?_⟩
+    obtain ⟨p, tri, triOk, hv, ht⟩ := valid_rootKey m h.2
+    show answerOk m (.root c) (rootDecomp P σ n m c s).2
+    rw [hv]; exact ⟨rfl, ht⟩
+  | rootInv c =>
+    have h := good_rootInv P σ n m c s hs
+    refine ⟨h.1, ?_⟩
+    show answerOk m (.rootInv c) (rootInvDecomp P σ n m c s).2
+    generalize (rootInvDecomp P σ n m c s).2 = v at h
+    cases v <;> simp [validFor, rootInvKey, Key.name] at h
+    simp [answerOk, h.2]
+  | diagz c =>
+    have h := good_diagz P σ n m c s hs
+    refine ⟨h.1, ?_⟩
+    show answerOk m (.diagz c) (diagonalization P σ n m c s).2
+    generalize (diagonalization P σ n m c s).2 = v at h
+    cases v <;> simp [validFor, diagzKey, Key.name] at h
+    simp [answerOk, h.2]
+  | svd =>
+    have h := good_svd P m s hs
+    refine ⟨h.1, ?_⟩
+    show answerOk m .svd (svd P m s).2
+    generalize (svd P m s).2 = v at h
+    cases v <;> simp [validFor, svdKey, Key.name] at h
+    simp [answerOk, h.2]
+  | eigh =>
+    show Inv m (eigh P m s).1.cache ∧ answerOk m .eigh (eigh P m s).2
+    unfold eigh
+    rw [symeig_absent m s.cache hs]
+    exact ⟨symeigRun_ok P m s hs, by simp [answerOk]⟩
+  | iql =>
+    show Inv m (invQuadLogdet P σ n m s).1.cache ∧ answerOk m .iql (invQuadLogdet P σ n m s).2
+    unfold invQuadLogdet
+    split
+    · exact ⟨hs, by simp [answerOk]⟩
+    · split
+      · split
+        · have h := good_root P σ n m .noargs s hs
+          obtain ⟨p, tri, triOk, hv, ht⟩ := valid_rootKey m h.2
+          simp only [hv]
+          cases tri with
+          | true => simp [answerOk, ht rfl]; exact h.1
+          | false => exact ⟨(cholesky_ok P m false _ h.1).1, by simp [answerOk]⟩
+        · exact ⟨(cholesky_ok P m false s hs).1, by simp [answerOk]⟩
+      · exact ⟨hs, by simp [answerOk]⟩
+  | sample =>
+    show Inv m (sample P σ n m s).1.cache ∧ answerOk m .sample (sample P σ n m s).2
+    unfold sample
+    split
+    · have h := good_root P σ n m .noargs s hs
+      obtain ⟨p, tri, triOk, hv, ht⟩ := valid_rootKey m h.2
+      simp only [hv]
+      exact ⟨h.1, by simp [answerOk]⟩
+    · exact ⟨hs, by simp [answerOk]⟩
+  | pure => exact ⟨hs, by simp [runQuery, answerOk]⟩
+
+/-- State after a history of (settings, query) pairs on one object. -/
+def runHist (P : Profile) (n m : Nat) (h : List (Settings × Query)) (s : St) : St :=
+  h.foldl (fun s e => (runQuery P e.1 n m e.2 s).1) s
+
+theorem runHist_inv (P : Profile) (n m : Nat) (h : List (Settings × Query)) (s : St) (hs : Inv m s.cache) :
+    Inv m (runHist P n m h s).cache := by
+  induction h generalizing s with
+  | nil => exact hs
+  | cons e t ih => exact ih _ (cache_inv P e.1 n m e.2 s hs).1
+
+/-- **history_transparent** (refinement to the cache-free specification): after ANY finite history on a
+freshly constructed object — any queries, any calling conventions, settings changing arbitrarily between
+them — the answer to any query satisfies the same specification `answerOk` as the answer a fresh object gives. -/
+theorem history_transparent (P : Profile) (n m : Nat) (h : List (Settings × Query)) (σ : Settings) (q : Query) :
+    answerOk m q (runQuery P σ n m q (runHist P n m h ⟨[], 0, []⟩)).2 ∧
+    answerOk m q (runQuery P σ n m q ⟨[], 0, []⟩).2 :=
+  ⟨(cache_inv P σ n m q _ (runHist_inv P n m h _ (Inv.nil m))).2, (cache_inv P σ n m q _ (Inv.nil m)).2⟩
+
+/-- Queries whose specification pins the answer uniquely. -/
+def Query.unique : Query → Bool
+  | .toDense | .cholesky _ | .svd | .eigh | .iql | .sample | .pure => true
+  | _ => false
+
+/-- **history_transparent, exact form**: for uniquely determined answers (dense matrix, Cholesky factor of the
+requested orientation, svd, eigh, numbers) the answer after any history EQUALS the fresh object's answer — in
+particular an upper factor is never returned for a lower request, and `eigh` never degrades to `(evals, None)`. -/
+theorem history_transparent_exact (P : Profile) (n m : Nat) (h : List (Settings × Query)) (σ : Settings) (q : Query)
+    (hq : q.unique = true) :
+    (runQuery P σ n m q (runHist P n m h ⟨[], 0, []⟩)).2 = (runQuery P σ n m q ⟨[], 0, []⟩).2 := by
+  have := history_transparent P n m h σ q
+  revert this
+  generalize (runQuery P σ n m q (runHist P n m h ⟨[], 0, []⟩)).2 = a
+  generalize (runQuery P σ n m q ⟨[], 0, []⟩).2 = b
+  intro ⟨ha, hb⟩
+  cases q <;> simp [Query.unique] at hq <;> cases a <;> simp [answerOk] at ha <;> cases b <;> simp [answerOk] at hb <;>
+    simp_all
+
+/-- **pop_then_recompute**: removing an entry and asking again recomputes a valid answer and re-inserts it. -/
+theorem pop_then_recompute (m : Nat) (k : Key) (f : St → St × Val) (hf : Good m k f) (s : St) (hs : Inv m s.cache) :
+    let s' : St := { s with cache := s.cache.pop k }
+    Inv m (cachedCall k f s').1.cache ∧ validFor m k (cachedCall k f s').2 ∧
+      (cachedCall k f s').2 = (f s').2 ∧ (cachedCall k f s').1.cache.get k = some (f s').2 := by
+  intro s'
+  have hs' : Inv m s'.cache := Inv.pop hs k
+  have h := good_cached hf s' hs'
+  have hmiss : s'.cache.get k = none := Cache.get_pop_same s.cache k
+  have e : (cachedCall k f s').2 = (f s').2 := by simp [cachedCall, hmiss]
+  refine ⟨h.1, h.2, e, ?_⟩
+  rw [← e]; exact cached_get s'
+
+/-! ### derived operators -/
+
+/-- **derived_fresh**: derivations other than the two transplants start from an empty cache, which satisfies
+the invariant for the new matrix whatever the parent's cache contained. -/
+theorem derived_fresh (m' : Nat) : deriveFresh = [] ∧ Inv m' deriveFresh := ⟨rfl, Inv.nil m'⟩
+
+/-- **Transplant by `cat_rows`** is valid for the new matrix whenever the parent's root and inverse root are an
+exact mutually-inverse pair; the parent's own cache stays valid in every case. -/
+theorem transplant_catRows (P : Profile) (σ : Settings) (n m m' : Nat) (s : St) (hs : Inv m s.cache) :
+    Inv m (catRows P σ n m m' s).1.cache ∧
+    (paired (rootDecomp P σ n m .noargs s).2 (rootInvDecomp P σ n m .noargs (rootDecomp P σ n m .noargs s).1).2 = true →
+      Inv m' (catRows P σ n m m' s).2) := by
+  have h1 := good_root P σ n m .noargs s hs
+  have h2 := good_rootInv P σ n m .noargs _ h1.1
+  refine ⟨h2.1, ?_⟩
+  intro hp
+  obtain ⟨p, tri, triOk, hv, _⟩ := valid_rootKey m h1.2
+  rw [hv] at hp
+  unfold catRows
+  simp only [hv, hp, valMat, Bool.true_and, beq_self_eq_true, if_true]
+  apply inv_pair
+  · simp [rootKey, rootInvKey]
+  · simp [validFor, rootInvKey, Key.name]
+  · simp [validFor, rootKey, Key.name, rootTri]
+
+/-- **Transplant by `add_low_rank`, partial**: valid for the new matrix when the pair is exact and mutually
+inverse AND the parent's root is not a triangular operator (the code wraps the dense updated root as triangular
+otherwise); the parent's cache stays valid in every case. -/
+theorem transplant_addLowRank_partial (P : Profile) (σ : Settings) (n m m' : Nat) (s : St) (hs : Inv m s.cache) :
+    Inv m (addLowRank P σ n m m' s).1.cache ∧
+    (paired (rootDecomp P σ n m .kwNone s).2 (rootInvDecomp P σ n m .kwNone (rootDecomp P σ n m .kwNone s).1).2 = true →
+     rootTri (rootDecomp P σ n m .kwNone s).2 = false →
+      Inv m' (addLowRank P σ n m m' s).2) := by
+  have h1 := good_root P σ n m .kwNone s hs
+  have h2 := good_rootInv P σ n m .kwNone _ h1.1
+  refine ⟨h2.1, ?_⟩
+  intro hp ht
+  obtain ⟨p, tri, triOk, hv, _⟩ := valid_rootKey m h1.2
+  rw [hv] at hp ht
+  unfold addLowRank
+  simp only [hv, hp, ht, valMat, Bool.true_and, beq_self_eq_true, if_true]
+  apply inv_pair
+  · simp [rootKey, rootInvKey]
+  · simp [validFor, rootKey, Key.name]
+  · simp [validFor, rootInvKey, Key.name]
+
+/-- D30 (as the code is): a fresh 6×6 object with `max_cholesky_size = 1` (Lanczos regime); `add_low_rank`
+obtains root and inverse root from two different Lanczos runs, and the entry it writes into the new object's
+cache is not a factorization of the new matrix. -/
+theorem transplant_lanczos_counterexample :
+    ∃ k v, (addLowRank Profile.base ⟨1, true, true, true⟩ 6 1 2 ⟨[], 0, []⟩).2.get k = some v ∧ ¬ validFor 2 k v :=
+  ⟨rootKey .noargs, Val.root .transplant false false 0, by decide, by decide⟩
+
+/-- The same for `cat_rows`. -/
+theorem transplant_catRows_lanczos_counterexample :
+    ∃ k v, (catRows Profile.base ⟨1, true, true, true⟩ 6 1 2 ⟨[], 0, []⟩).2.get k = some v ∧ ¬ validFor 2 k v :=
+  ⟨rootKey .noargs, Val.root .transplant false false 0, by decide, by decide⟩
+
+/-- D31 (as the code is): default settings (Cholesky roots, exact and mutually inverse); `add_low_rank` stores the
+dense updated root flagged as triangular, which is not a valid `root_decomposition` entry … -/
+theorem transplant_triangular_counterexample :
+    ∃ k v, (addLowRank Profile.base ⟨800, true, true, true⟩ 6 1 2 ⟨[], 0, []⟩).2.get k = some v ∧ ¬ validFor 2 k v :=
+  ⟨rootKey .noargs, Val.root .transplant true false 2, by decide, by decide⟩
+
+/-- … and `logdet` / `inv_quad_logdet` on the new object then use it as a Cholesky factor: the answer is not
+acceptable, although the same query on a fresh copy is (by `history_transparent`). -/
+theorem transplant_triangular_breaks_logdet :
+    ¬ answerOk 2 .iql (runQuery Profile.base ⟨800, true, true, true⟩ 6 2 .iql
+        ⟨(addLowRank Profile.base ⟨800, true, true, true⟩ 6 1 2 ⟨[], 0, []⟩).2, 0, []⟩).2 := by
+  decide
+
+/-! ### the algebra of the transplants (Mathlib matrices over any commutative ring) -/
+
+open Matrix in
+/-- `(L U S̃)(L U S̃)ᵀ = A + B Bᵀ` under the explicit hypothesis that the cached pair is exact (`L Lᵀ = A`) and
+mutually inverse (`L P = 1`). -/
+theorem transplant_valid_lowrank {R : Type} [CommRing R] {n r : Type} [Fintype n] [DecidableEq n] [Fintype r]
+    (A L Pm U : Matrix n n R) (B : Matrix n r R) (sig d : n → R)
+    (hA : L * Lᵀ = A) (hLP : L * Pm = 1) (hU : U * Uᵀ = 1)
+    (hS : U * diagonal (fun i => sig i * sig i) * Uᵀ = (Pm * B) * (Pm * B)ᵀ)
+    (hd : ∀ i, d i * d i = sig i * sig i + 1) :
+    (L * U * diagonal d) * (L * U * diagonal d)ᵀ = A + B * Bᵀ :=
+  Algebra.transplant_valid_lowrank A L Pm U B sig d hA hLP hU hS hd
+
+open Matrix in
+/-- Without the pairing hypothesis the update yields `L Lᵀ + (L P) B Bᵀ (L P)ᵀ` — whatever `L P` is. -/
+theorem transplant_lowrank_general {R : Type} [CommRing R] {n r : Type} [Fintype n] [DecidableEq n] [Fintype r]
+    (L Pm U : Matrix n n R) (B : Matrix n r R) (sig d : n → R) (hU : U * Uᵀ = 1)
+    (hS : U * diagonal (fun i => sig i * sig i) * Uᵀ = (Pm * B) * (Pm * B)ᵀ)
+    (hd : ∀ i, d i * d i = sig i * sig i + 1) :
+    (L * U * diagonal d) * (L * U * diagonal d)ᵀ = L * Lᵀ + (L * Pm) * B * Bᵀ * (L * Pm)ᵀ :=
+  Algebra.lowrank_root_general L Pm U B sig d hU hS hd
+
+open Matrix in
+/-- … which differs from `A + B Bᵀ` already for 2×2 integer matrices with exact but unpaired roots. -/
+theorem transplant_lowrank_unpaired_counterexample :
+    ∃ (L Pm : Matrix (Fin 2) (Fin 2) ℤ) (B : Matrix (Fin 2) (Fin 1) ℤ),
+      L * Lᵀ = 1 ∧ Pmᵀ * Pm = 1 ∧ L * Lᵀ + (L * Pm) * B * Bᵀ * (L * Pm)ᵀ ≠ 1 + B * Bᵀ :=
+  Algebra.lowrank_unpaired_counterexample
+
+open Matrix in
+/-- The transplanted inverse root is the transposed inverse of the transplanted root. -/
+theorem transplant_valid_lowrank_inv {R : Type} [CommRing R] {n : Type} [Fintype n] [DecidableEq n]
+    (L Pm U : Matrix n n R) (d e : n → R) (hPL : Pm * L = 1) (hU : Uᵀ * U = 1) (hde : ∀ i, e i * d i = 1) :
+    (Pmᵀ * U * diagonal e)ᵀ * (L * U * diagonal d) = 1 :=
+  Algebra.transplant_valid_lowrank_inv L Pm U d e hPL hU hde
+
+open Matrix in
+/-- Block-root identity of `cat_rows`: `[E 0; F G][E 0; F G]ᵀ = [[A, Bᵀ], [B, D]]`. -/
+theorem transplant_valid_catrows {R : Type} [CommRing R] {n o : Type} [Fintype n] [DecidableEq n] [Fintype o] [DecidableEq o]
+    (A E Rinv : Matrix n n R) (B : Matrix o n R) (D G : Matrix o o R)
+    (hE : E * Eᵀ = A) (hER : E * Rinvᵀ = 1) (hG : G * Gᵀ = D - (B * Rinv) * (B * Rinv)ᵀ) :
+    fromBlocks E 0 (B * Rinv) G * (fromBlocks E 0 (B * Rinv) G)ᵀ = fromBlocks A Bᵀ B D :=
+  Algebra.transplant_valid_catrows A E Rinv B D G hE hER hG
+
+/-! ### obligations over the table regenerated from /repo on every run -/
+open LinOp.Generated.C12
+
+/-- `ignore_args=True` is used only on `_cholesky` of the diagonal classes (whose factor is its own transpose). -/
+theorem gen_ignoreArgs_reviewed :
+    (decos.filter (·.ignoreArgs)).map (fun d => (d.cls, d.fn, d.name)) =
+      [("DiagLinearOperator", "_cholesky", "cholesky"), ("IdentityLinearOperator", "_cholesky", "cholesky")] := by
+  decide +kernel
+
+/-- A cache name belongs to exactly one function name (no two different computations share a name). -/
+theorem gen_name_determines_function :
+    decos.all (fun d₁ => decos.all fun d₂ => d₁.name != d₂.name || d₁.fn == d₂.fn) = true := by
+  decide +kernel
+
+/-- Every `_cholesky` memoises on `upper` (or ignores its arguments, previous theorem), and the only caller of
+`_cholesky` is `cholesky()`, which always asks for the lower factor and transposes outside the cache. -/
+theorem gen_cholesky_key_discipline :
+    (decos.filter (·.name == "cholesky")).all (fun d => d.fn == "_cholesky" && d.params == ["upper"]) = true ∧
+    cholCalls.map (fun c => (c.fn, c.recv, c.args)) = [("cholesky", "self", "upper=False")] := by
+  decide +kernel
+
+/-- Method-taking factorizations keep `method` in the key. -/
+theorem gen_method_in_key :
+    (decos.filter (fun d => d.name == "root_decomposition" || d.name == "root_inv_decomposition" || d.name == "diagonalization")).all
+      (fun d => !d.ignoreArgs && d.params.contains "method") = true := by
+  decide +kernel
+
+/-- The direct writers of the cache are exactly the reviewed ones (side write of `_root_inv_decomposition`, the two
+transplants), all under argument-free keys. -/
+theorem gen_writers_reviewed :
+    (sites.filter (·.api == "add_to_cache")).map (fun s => (s.fn, s.name, s.target, s.nextra, s.kwargs)) =
+      [("_root_inv_decomposition", "root_decomposition", "self", 0, []),
+       ("_root_inv_decomposition", "root_decomposition", "self", 0, []),
+       ("add_low_rank", "root_decomposition", "new_linear_op", 0, []),
+       ("add_low_rank", "root_inv_decomposition", "new_linear_op", 0, []),
+       ("cat_rows", "root_inv_decomposition", "new_linear_op", 0, []),
+       ("cat_rows", "root_decomposition", "new_linear_op", 0, [])] := by
+  decide +kernel
+
+/-- Every name that is probed / popped is either written by a function decorated with that name, or is one of
+the two dead probes (`symeig`, `lanczos`) that NOTHING writes — so `eigh` can never return its `(evals, None)` form
+and `_choose_root_method` never answers from those probes. -/
+theorem gen_reads_are_written_or_dead :
+    (sites.filter (fun s => s.api != "add_to_cache")).all
+      (fun s => decos.any (fun d => d.name == s.name) || s.name == "symeig" || s.name == "lanczos") = true ∧
+    decos.all (fun d => d.name != "symeig" && d.name != "lanczos") = true ∧
+    sites.all (fun s => s.api != "add_to_cache" || (s.name != "symeig" && s.name != "lanczos")) = true := by
+  decide +kernel
+
+/-- The reviewed list of read sites (function, API, name). A new probe of the cache must be modelled first. -/
+theorem gen_readers_reviewed :
+    (sites.filter (fun s => s.api != "add_to_cache")).map (fun s => (s.fn, s.api, s.name)) =
+      [("_choose_root_method", "_is_in_cache_ignore_all_args", "symeig"),
+       ("_choose_root_method", "_is_in_cache_ignore_all_args", "diagonalization"),
+       ("_choose_root_method", "_is_in_cache_ignore_all_args", "lanczos"),
+       ("add_low_rank", "_is_in_cache_ignore_args", "root_decomposition"),
+       ("add_low_rank", "_is_in_cache_ignore_args", "root_inv_decomposition"),
+       ("cat_rows", "_is_in_cache_ignore_args", "root_decomposition"),
+       ("cat_rows", "_is_in_cache_ignore_args", "root_inv_decomposition"),
+       ("eigh", "pop_from_cache", "symeig"),
+       ("eigvalsh", "pop_from_cache", "symeig"),
+       ("inv_quad_logdet", "_is_in_cache_ignore_all_args", "root_decomposition")] := by
+  decide +kernel
+
+/-- The cache names in use are exactly the ones the implementation-side audit knows how to validate. -/
+theorem gen_cache_names_known :
+    decos.all (fun d => ["cholesky", "root_decomposition", "root_inv_decomposition", "diagonalization", "svd", "size",
+      "kernel_diag", "covar_mat", "chol_cap_mat", "fn:to_dense", "fn:_diagonal", "fn:inverse"].contains d.name) = true := by
+  decide +kernel
+
+/-! ### non-vacuity -/
+
+/-- The hypotheses of the transplant theorems are satisfiable: default settings give a paired (Cholesky) couple;
+`cat_rows` then produces a valid cache. -/
+example : Inv 2 (catRows Profile.base ⟨800, true, true, true⟩ 6 1 2 ⟨[], 0, []⟩).2 :=
+  (transplant_catRows Profile.base ⟨800, true, true, true⟩ 6 1 2 ⟨[], 0, []⟩ (Inv.nil 1)).2 (by decide)
+
+/-- A history in which the side write matters: inverse root by Lanczos, then the default root is served from the
+cache entry written by that same run (paired), and `cat_rows` is valid. -/
+example : paired
+    (rootDecomp Profile.base ⟨1, true, true, true⟩ 6 1 .noargs (rootInvDecomp Profile.base ⟨1, true, true, true⟩ 6 1 .noargs ⟨[], 0, []⟩).1).2
+    (rootInvDecomp Profile.base ⟨1, true, true, true⟩ 6 1 .noargs ⟨[], 0, []⟩).2 = true := by decide
+
 end LinOp.C12
